@@ -90,6 +90,7 @@ REGISTRY = {
     "C05": {"parts": [{"module": "props.split", "units": ["split", "make_region", "blocks_lemma", "region_split"]},
                       {"module": "props.regions", "units": ["post_init", "concat_lemma", "meta"]},
                       {"module": "props.readers", "units": ["fixed", "audioreader"]},
+                      {"module": "props.readers", "units": ["recorder"], "include_all": True},
                       {"module": "props.sources", "units": ["buffer_read", "file_read", "file_open"], "include_all": True},
                       # "the regions are exactly the tokenizer segmentation (C01-C04) of the per-window decisions (C07)"
                       # ... of the tokenizer AS split() USES IT: fresh object per call, no initial phase (context "split")
@@ -159,7 +160,8 @@ REGISTRY = {
                       # rewind goes through the limiter: its whole contract (read / rewind / data) is part of the check
                       {"module": "props.readers", "units": ["limiter"], "include_all": True}],
             "witness": "api", "assumptions": RD_ASSUME},
-    "C11": {"module": "props.sources", "units": ["buffer_init", "buffer_read", "buffer_position", "file_read", "file_open"],
+    "C11": {"parts": [{"module": "props.sources", "units": ["buffer_init", "buffer_read", "buffer_position", "file_read", "file_open"]},
+                      {"module": "props.iofuncs", "units": ["loaders"], "include_all": True}],
             "witness": "api", "assumptions": [
                 "library models (assumed contracts): binary stream.read(k) / wave.readframes(k) return the next "
                 "min(k, remaining) bytes / frames (None or negative: all remaining; sys.stdin.buffer.read rejects k < -1) "
@@ -188,7 +190,9 @@ REGISTRY = {
                                                               "stream_saver", "joiner", "saver_init", "structure"]},
                       {"module": "props.tokenizer", "units": ["lemmas", "post_process", "iter_tokens"]},
                       # the stop path closes a reader that is not exhausted: close() of every source kind returns
-                      {"module": "props.sources", "units": ["file_read", "buffer_position"]}],
+                      {"module": "props.sources", "units": ["file_read", "buffer_position"]},
+                      # the Ctrl-C path of the command line: stop_all is reached whatever state the tokenizer thread is in
+                      {"module": "props.cmdline", "units": ["main"], "include_all": True}],
             "witness": "workers", "assumptions": WK_ASSUME + [
                 "'every point at which the stop can arrive' = every outcome of the stop poll that precedes each read (stop marker "
                 "present / absent): once it is seen read() returns end-of-stream without touching the reader, and the tokenizer's "
